@@ -1,3 +1,6 @@
+E1X = ["common", "e1_engine.go=lnwallet/e1_engine_test.go", "e1_oracles.go=lnwallet/e1_oracles_test.go",
+       "e1_fork.go=lnwallet/e1_fork_test.go", "e1_debug.go=lnwallet/e1_debug_test.go", "lnwallet/e1_export.go",
+       "c05_shared.go=lnwallet/c05_shared_test.go", "lnwallet/c05_export.go"]
 _E1 = ["lnwallet/e1_engine_test.go", "lnwallet/e1_oracles_test.go", "lnwallet/e1_fork_test.go", "lnwallet/e1_debug_test.go"]
 PROP = {
     "level": "exploration",
@@ -19,11 +22,19 @@ PROP = {
                    "real confirmed transaction. Negative controls per class (CSV-1, locktime expiry-1, wrong preimage, sequence 0 "
                    "on 1-CSV to_remote) must be rejected, else the run is inconclusive. Value/completeness: the validated claims "
                    "cover every output except the peer's main output and anchor and sum to balance + untrimmed HTLCs minus "
-                   "second-level fees."),
-    "level_note": ("lnwallet unit selects input/witness types with a MIRROR of contractcourt's resolvers (decideWitnessType, "
-                   "htlcTimeout/SuccessResolver, makeSweepInput, anchorResolver), so a wrong arm inside those resolvers is not "
-                   "seen here; no aux leaves/custom channels; heights 0 (fixture-made placeholder signature) are skipped; "
-                   "held on the executions counted in evidence."),
+                   "second-level fees. Unit 'resolvers' (package contractcourt, same schedule driver through an exported "
+                   "facade) hands the same resolutions to the REAL commitSweepResolver / anchorResolver / htlcTimeoutResolver / "
+                   "htlcSuccessResolver (preimage applied as the contest resolver does), records the input.Input objects their "
+                   "Launch() offers to the sweeper (second stage: a fresh resolver in the outputIncubating state is notified of the "
+                   "verified re-signed second-level tx), and runs each through CraftInputScript + the interpreter against the "
+                   "real outputs, so the resolvers' own witness-type / CLTV / CSV choices are judged."),
+    "level_note": ("unit 'closes' selects input/witness types with a MIRROR of contractcourt's resolvers (decideWitnessType, "
+                   "htlcTimeout/SuccessResolver, makeSweepInput, anchorResolver); unit 'resolvers' runs the real ones but not the "
+                   "utxo-nursery path that legacy (pre-anchor) second-level outputs take (counted as "
+                   "legacy_second_level_to_nursery; their descriptors are judged by unit 'closes'); witness-type mix-ups whose "
+                   "generators are byte-identical (taproot local/remote commit spend) are invisible to a script oracle; no aux "
+                   "leaves/custom channels; heights 0 (fixture-made placeholder signature) are skipped; held on the executions "
+                   "counted in evidence."),
     "design_ref": "DESIGN.md §2 E1/E3, §3 C05",
     "rule": ("case = E1 schedule with PRNG restarts/disconnects; up to 7 check points per schedule (boosted inside "
              "pending-remote windows, after reloads, plus both sides at the final quiescent state), each closing one fork "
@@ -35,9 +46,9 @@ PROP = {
     "eval_counter": "closes_checked",
     "units": [{
         "name": "closes", "pkg": "lnwallet", "test": "TestVerifC05",
-        "files": _E1 + ["lnwallet/c01_test.go", "lnwallet/c05_test.go"],
+        "files": _E1 + ["lnwallet/c01_test.go", "lnwallet/c05_shared_test.go", "lnwallet/c05_test.go"],
         "shards": {"quick": 12, "thorough": 16},
-        "watchdog": {"quick": 900, "thorough": 5400},
+        "watchdog": {"quick": 900, "thorough": 7200},
         "floors": {"quick": {"closes_checked": 2500, "nontrivial": 1800, "nontrivial_local": 700,
                              "nontrivial_remote-current": 500, "nontrivial_remote-pending": 400,
                              "nontrivial_after_reload": 60,
@@ -51,6 +62,19 @@ PROP = {
                              "negctl_timeout_tx_locktime_minus_1": 500, "negctl_success_tx_wrong_preimage": 900,
                              "negctl_remote_timeout_locktime_minus_1": 1200,
                              "negctl_remote_success_wrong_preimage": 700, "negctl_to_remote_csv_0": 900},
-                   "thorough": {"closes_checked": 50000, "nontrivial": 35000, "nontrivial_remote-pending": 8000}},
+                   "thorough": {"closes_checked": 60000, "nontrivial": 40000, "nontrivial_remote-pending": 10000}},
+    }, {
+        "name": "resolvers", "pkg": "contractcourt", "test": "TestVerifC05CC",
+        "files": ["contractcourt/c05cc_test.go"], "exports": {"lnwallet": E1X},
+        "shards": {"quick": 10, "thorough": 16},
+        "watchdog": {"quick": 900, "thorough": 7200},
+        "floors": {"quick": {"closes_checked": 1300, "nontrivial": 900, "nontrivial_local": 350,
+                             "nontrivial_remote-current": 270, "nontrivial_remote-pending": 250,
+                             "oracle_resolver_commit_sweep_valid": 1200, "oracle_resolver_anchor_sweep_valid": 900,
+                             "oracle_resolver_htlc_success_valid": 750, "oracle_resolver_htlc_timeout_valid": 900,
+                             "oracle_resolver_second_level_output_valid": 600,
+                             "negctl_commit_csv_minus_1": 1000, "negctl_second_level_csv_minus_1": 600,
+                             "negctl_remote_timeout_locktime_minus_1": 650, "negctl_timeout_tx_locktime_minus_1": 220},
+                   "thorough": {"closes_checked": 30000, "nontrivial": 20000, "nontrivial_remote-pending": 5000}},
     }],
 }
